@@ -5,7 +5,7 @@ Protocol (binary in, JSON lines out, one item at a time):
                      flags: 1 = also PSD.read with raw payloads (what the Lean skeleton model computes)
                             2 = export level 1 (document composite() and topil()) when the file opens
                             4 = export level 2 (first layers: topil(), numpy())
-                            128 = watchdog self-test: the payload names a misbehaviour (hang, segv, alloc, exit, die, rss)
+                            128 = watchdog self-test: the payload names a misbehaviour (hang, sleep, segv, alloc, exit, die, rss)
   worker -> parent   {"hello":..} once, then per item {"id","stage":"open",...} and, when an export was asked
                      for and the file opened, {"id","stage":"export",...}.
 The answers travel on a private duplicate of stdout; fd 1 and fd 2 of the library go to the stderr file, where
@@ -54,7 +54,6 @@ def main():
     inp = os.fdopen(os.dup(0), "rb", buffering=1 << 16)
     sys.path.insert(0, os.path.join(repo, "src"))
     sys.path.insert(0, harness)
-    sys.dont_write_bytecode = True
     import faulthandler
     faulthandler.enable(file=sys.stderr, all_threads=False)
     import logging
@@ -188,6 +187,8 @@ def main():
                 if data == b"hang":
                     while True:
                         pass
+                elif data == b"sleep":
+                    time.sleep(600)
                 elif data == b"segv":
                     import ctypes
                     ctypes.string_at(0)
